@@ -26,10 +26,10 @@ func init() {
 				Procs:    16,
 				Rule: "(o) sparse-observation histories (trees of 64+ keys, operations chosen with locality, only the results of Get/Min/Max/Add/Replace/Remove themselves observed, on a tree and its clones), nested and interleaved scans (InorderAfter started inside a running scan; pull iterators on a tree and its clone stepped alternately), 8 goroutines each working on its own Clone of one prototype (also under -race); (i) rebuild sweep (seed-independent): the delete-side whole-tree rebuild is forced to run at exactly size s for every s <= 400 (2500 thorough) and for 2^k-3..2^k+3, k <= 13 (16), and the contents are compared afterwards; (ii) case = (beta, comparator granularity incl. comparators that return differences instead of -1/0/+1, bulk-New keys, phase-structured history of Add/Replace/Remove/Clear/Clone over up to 3 live trees). " +
 					"Phases: ascending / descending / zig-zag / random inserts, mixed random ops, drains (to empty, to 1/8, to 1/2; ascending, descending, random order), forced two-child removals followed by Get of the promoted successor, Clear, Clone. " +
-					"After EVERY call: Len, IsEmpty, Min, Max, (every fifth step first a scan abandoned half-way: its loop body panics and the caller recovers,) full Inorder (with stored tags), Inorder early stop, Get for all/sampled keys, InorderAfter for sampled keys with early stop. " +
+					"After EVERY call: Len, IsEmpty, Min, Max, (every fifth step first a scan abandoned half-way: its loop body panics and the caller recovers,) full Inorder (with stored tags), Inorder early stop, Get for all/sampled keys, InorderAfter for sampled keys with early stop; range functions returned by InorderAfter are put aside and ranged only after later Add/Remove/Clear calls (they must then describe the tree as it is at that moment). " +
 					"beta: quick uses {0,1,2,50,100,250,500,750,999,1000}; thorough additionally sweeps every beta in 0..1000. " +
 					"distinct = hash of (beta, div, every op with its key); non-trivial = the history contained a scapegoat rebuild on insert, a delete-side whole rebuild, or a two-child removal (detected from the tree shape read through Root/Left/Right)",
-				Required:     []string{"insert_rebuilds", "delete_rebuilds", "two_child_removals", "new_with_duplicates", "clones", "replace_existing", "steps", "histories_with_wide_comparator", "rebuilds_at_exact_size", "clone_worker_rounds", "sparse_observation_histories", "nested_scan_cases", "abandoned_scans"},
+				Required:     []string{"insert_rebuilds", "delete_rebuilds", "two_child_removals", "new_with_duplicates", "clones", "replace_existing", "steps", "histories_with_wide_comparator", "rebuilds_at_exact_size", "clone_worker_rounds", "sparse_observation_histories", "nested_scan_cases", "abandoned_scans", "kept_range_functions_ranged_later"},
 				Assumptions:  []string{"reference model: sorted slice with textbook set semantics", "tree shape for reach counters is read through stree.Cursor (checked separately by C03)"},
 				CoverPkgs:    []string{"github.com/creachadair/mds/stree"},
 				CoverAnchors: []string{"stree/stree.go", "stree/node.go"},
@@ -42,6 +42,14 @@ func init() {
 type c01tree struct {
 	t   *stree.Tree[Elem]
 	ref *refSet
+	// range functions obtained from InorderAfter earlier and not yet (or not
+	// only once) ranged: ranged later, they must describe the tree as it is then
+	kept []c01kept
+}
+
+type c01kept struct {
+	k   int
+	seq iter.Seq[Elem]
 }
 
 type c01hist struct {
@@ -180,13 +188,18 @@ func (h *c01hist) checkTree(ti int, focus int) {
 		}
 	}
 	// InorderAfter.
+	var useSeq iter.Seq[Elem]
 	after := func(k int, limit int) bool {
 		i, _ := ref.find(k)
 		want := ref.es[i:]
 		j := 0
 		bad := false
 		calls := 0
-		for e := range t.InorderAfter(Elem{Key: k, Tag: -1}) {
+		seq, what := t.InorderAfter(Elem{Key: k, Tag: -1}), "InorderAfter"
+		if useSeq != nil {
+			seq, what = useSeq, "the range function returned by an earlier InorderAfter call, ranged now,"
+		}
+		for e := range seq {
 			calls++
 			if j >= len(want) || e != want[j] {
 				bad = true
@@ -205,7 +218,16 @@ func (h *c01hist) checkTree(ti int, focus int) {
 					break
 				}
 			}
-			h.fail("tree %d: InorderAfter(%d) (stop after %d) yields %s want prefix of %s", ti, k, limit, elemsString(got), elemsString(want))
+			if useSeq != nil {
+				got = got[:0]
+				for e := range useSeq {
+					got = append(got, e)
+					if len(got) > len(want)+3 {
+						break
+					}
+				}
+			}
+			h.fail("tree %d: %s (%d) (stop after %d) yields %s want prefix of %s", ti, what, k, limit, elemsString(got), elemsString(want))
 			return false
 		}
 		return true
@@ -221,6 +243,27 @@ func (h *c01hist) checkTree(ti int, focus int) {
 		}
 		if !after(k, limit) {
 			return
+		}
+	}
+	// kept range functions: one taken earlier is ranged now (twice now and
+	// then), and a new one is taken and put aside
+	if len(tr.kept) > 0 && h.steps%2 == 0 {
+		kp := tr.kept[h.steps/2%len(tr.kept)]
+		useSeq = kp.seq
+		ok := after(kp.k, -1) && (h.steps%6 != 0 || after(kp.k, 2))
+		useSeq = nil
+		h.c.Add("kept_range_functions_ranged_later", 1)
+		if !ok {
+			return
+		}
+	}
+	if h.steps%4 == 1 {
+		k := ks[h.steps/4%len(ks)]
+		kp := c01kept{k: k, seq: t.InorderAfter(Elem{Key: k, Tag: -1})}
+		if len(tr.kept) < 5 {
+			tr.kept = append(tr.kept, kp)
+		} else {
+			tr.kept[h.steps/4%5] = kp
 		}
 	}
 }
